@@ -46,7 +46,7 @@ def bounded(tier, seed, rep):
     from contracts import c15_leaf_codecs, c15_combinators
     from bounded import leancheck
     from bounded.common import load_repo
-    rep.coverage["ground_facts_validated_natively"] = c15_leaf_codecs.facts_validation() + c15_leaf_codecs.leading_class_validation()
+    rep.coverage["ground_facts_validated_natively"] = c15_leaf_codecs.facts_validation() + c15_leaf_codecs.leading_class_validation() + c15_leaf_codecs.decimal_facts_validation()
     leancheck.check(rep, "lean/Codecs.lean", ["C15.oneOf_RTg", "C15.oneOf_Lead", "C15.seq_RT", "C15.tupl_RT", "C15.grid_RT",
                                                "C15.rowsOf_get", "C15.grid_oneOf_RT", "C15.problem_roundtrip"])
     load_repo()
@@ -68,7 +68,7 @@ LEVEL_TEXT = ("exploration overall. Proved without bound: (1) pyvc, leaves: HexI
               "relations First / SeqSer / SeqDes / TuplSer / TuplDes / grid+rowsOf from arbitrary components; (3) Lean 4: those "
               "relations carry the round trip to every nesting (oneOf_RTg, oneOf_Lead, seq_RT, tupl_RT, grid_RT, grid_oneOf_RT, "
               "problem_roundtrip). Covered instances are listed in the evidence (coverage.puzzle_codecs_carried_by_the_lemmas). "
-              "Not proved: Rooms / ValuedRooms (flood fill, sorting), DecInt, custom leaves (YajilinClue), the translation "
+              "DecInt (greedy digit run; str(int)/int(str)/isdigit uninterpreted with sampled ground facts) is a proved leaf as well. Not proved: Rooms / ValuedRooms (flood fill, sorting), custom leaves (YajilinClue), the translation "
               "from the step contracts to the Lean relations; these stay bounded / assumed, hence not 'proof'")
 TECHNIQUE = ("pyvc: leaf codec round-trip and leading-character contracts over SMT strings (loop invariants with quantifiers, "
              "callee contract for _to_base36, ground facts about hex()/int() validated natively); pyvc: step contracts of the "
